@@ -42,6 +42,17 @@ structure Lazy where
   id : Nat
   deriving DecidableEq, Repr, Inhabited
 
+/-- The scheduler handed to a time operator. -/
+structure Sched where
+  deriving DecidableEq, Repr, Inhabited
+
+/-- `OnceTask::new(f, (observer, args…))`: the task function by name and its arguments other than the observer
+    (which is the operator's own slot — the translator refuses anything else). -/
+structure Task where
+  kind : String
+  args : List Val
+  deriving DecidableEq, Repr, Inhabited
+
 /-- What an observer / subscription does to the outside, in order: a call on THE downstream observer, a call on
     the k-th of several downstream observers (subject subscribers, group subjects), a run of a user callback
     without result (finalizer), `unsubscribe()` of a nested subscription, the subscription of an inner observable,
@@ -53,6 +64,7 @@ inductive Ev where
   | unsub (k : Nat)
   | start (k : Nat)
   | lazy (k : Nat)
+  | sched (task : String) (args : List Val) (delay : Option Nat) (handle : Nat)
   deriving DecidableEq, Repr, Inhabited
 
 /-- The effects of one method call, in order. -/
@@ -67,6 +79,7 @@ class ToVal (α : Type) where
 
 instance : ToVal Val := ⟨id⟩
 instance : ToVal Bool := ⟨Val.bool⟩
+instance : ToVal Int := ⟨Val.int⟩
 instance : ToVal Unit := ⟨fun _ => Val.unit⟩
 instance {α β} [ToVal α] [ToVal β] : ToVal (α × β) := ⟨fun p => Val.pair (ToVal.toVal p.1) (ToVal.toVal p.2)⟩
 instance {α} [ToVal α] : ToVal (List α) := ⟨fun l => Val.ofList (l.map ToVal.toVal)⟩
@@ -88,6 +101,8 @@ def emitTo (k : Nat) (x : Notif) : Out := [Ev.to k x]
 def emitStart (k : Nat) : Out := [Ev.start k]
 /-- a stored closure is run: `<Struct>.<fn>_lazy` says what that does -/
 def emitLazy (k : Nat) : Out := [Ev.lazy k]
+/-- `scheduler.schedule(task, delay)`; `h` names the handle it returns -/
+def emitSched (t : Task) (delay : Option Nat) (h : Nat) : Out := [Ev.sched t.kind t.args delay h]
 /-- a user callback without result is called (`func()` of finalize); `k` names the callback -/
 def emitCall (k : Nat) : Out := [Ev.call k]
 /-- `sub.is_closed()`: the nested subscription's answer is a parameter. -/
